@@ -49,7 +49,8 @@ for _p in ["C%02d" % i for i in range(1, 21)]:
 P("C05", "model_checking", native=True, kani={"timeout": "900s"},
   bounded="programs: depth profiles n<=3 (quick: d<=2 plus selected d=3; thorough: d<=3 plus n=4 samples), Option/Result sync and Result async; every (branch, step) failure flag and payload symbolic",
   unbounded="the transposer that turns the per-branch results into one Option/Result is r0.and_then(|r0| r1.and_then(|r1| .. rn.map(|rn| (all values)))) for ANY number of branches (generate_results_transposer, R13 desugaring of iter().rev().fold()): branch k is examined before every later one and the tuple is reached only when all succeeded",
-  not_decided="spawn kinds (threads / tokio tasks): not executable by Kani; the per-step abort code of join_steps is decided by the bounded programs only")
+  unbounded_2="join_steps (module steps): in a transposing try macro the failure test of a step looks at exactly the ACTIVE branches in branch order, arm k hands back the failure of the k-th active branch with its payload untouched (r.map(|_| unreachable!())), and the next step sits ONLY in the else branch",
+  not_decided="thread / tokio schedules beyond the native sweeps; generate_steps (the fold over the steps) is outside Verus")
 
 P("C06", "model_checking", native=True, kani={"timeout": "900s"},
   unbounded="the step structure the abort acts on: split_steps (see C03) and the transport of the `~` mark; the abort code of join_steps itself is decided by the bounded programs only",
@@ -57,10 +58,11 @@ P("C06", "model_checking", native=True, kani={"timeout": "900s"},
   not_decided="spawn kinds (threads / tokio tasks)")
 P("C04", "model_checking", native=True, kani={"timeout": "900s"},
   bounded="depth profiles n<=3 (+n=4 samples), d<=3; join!/try_join!/join_async!/try_join_async!, with then/map/and_then handlers and let patterns; values symbolic",
-  unbounded="the three index functions and the step destructuring: active_step_branch_count == #{i: depth_i > step} (R13 desugaring of iter/filter/count), step_results.k is indexed over active branches only, extract_results_tuple names exactly the active branches in branch order (R13 desugaring of the lazy filter with its counting closure) and hands ALL result names to the handler in branch order",
-  not_decided="spawn kinds; generate_step / join_steps (the assembly of the per-step tuples) are outside Verus and covered by the bounded programs only")
+  unbounded="join_steps verified against a token-level spec (module steps): which branches a step checks / re-wraps / hands on, in which order, where the next step goes, the final tuple over ALL branches in branch order; the three index functions and the step destructuring: active_step_branch_count == #{i: depth_i > step} (R13 desugaring of iter/filter/count), step_results.k is indexed over active branches only, extract_results_tuple names exactly the active branches in branch order (R13 desugaring of the lazy filter with its counting closure) and hands ALL result names to the handler in branch order",
+  not_decided="tokio-spawn kinds beyond the native sweeps; generate_steps (the fold over the steps) is outside Verus")
 
 P("C09", "model_checking", native=True, kani={"timeout": "1200s"},
+  unbounded="the tail of generate_step (R15 statement suffix): ALL step streams of a step go, in branch order, into ONE joiner invocation (futures_crate_path::join! / try_join! or the custom joiner) - the concurrency of a step rests on that macro; a step with one active branch is awaited directly",
   bounded="join_async!/try_join_async!, profiles n<=3 d<=2 (thorough: d<=3, n=4 sample), one harness-controlled gate per (branch, step) with symbolic pending count <= 1: every readiness pattern incl. batches; polls <= 1 + sum_s max_i p_is",
   not_decided="tokio-task variants beyond the 6 native programs of spawn_sweep (one schedule each, 5 s timeout); unbounded liveness")
 P("C03", "model_checking", native=True, kani={"timeout": "1200s"},
@@ -81,7 +83,9 @@ P("C12", "model_checking", native=True, kani={"timeout": "600s", "compile_clause
 P("C13", "model_checking", native=True, kani={"timeout": "600s"}, rac=["reject"],
   bounded="every legal (kind x handler) for the 4 executable kinds, n<=3, handler at end / between branches, failure flags symbolic; handler call count, argument order, wrapping, awaited value",
   not_decided="spawn kinds")
-P("C16", "model_checking", kani={"timeout": "600s"}, rac=["options", "futures_path"],
+P("C16", "model_checking",
+  unbounded="defaults of lazy_branches / transpose_results (R8); which joiner a step gets (generate_step_tail): the custom joiner iff more than one branch is active, else futures_crate_path::join!/try_join! (async) or a plain tuple (sync)",
+  kani={"timeout": "600s"}, rac=["options", "futures_path"],
   bounded="logging joiner (macro form) on 8 depth profiles eager/lazy; transposing joiner with transpose_results(false) on 6 profiles; futures_crate_path via a re-export; all four options together",
   not_decided="spawn kinds")
 
